@@ -25,7 +25,7 @@ import ibldsp.waveform_extraction as wfx  # noqa: E402
 PROP = "C13"
 LEVEL = "exploration"
 TIERS = {
-    "quick": {"runs": 320, "budget_s": 480, "det_pairs": 3},
+    "quick": {"runs": 600, "budget_s": 480, "det_pairs": 3},
     "thorough": {"runs": 100000, "budget_s": 1800, "det_pairs": 6},
 }
 RUN_TIMEOUT = 900
